@@ -1,6 +1,7 @@
 import CssVerif.Model.Codec
 import CssVerif.Model.CodecInc
 import CssVerif.Model.CodecInner
+import CssVerif.Lemmas.CodecEncInner
 open CssVerif.Proto CssVerif.Codec
 
 def showEnc : Enc → String
@@ -95,6 +96,26 @@ def ienc (c : CName) (chunks : List (List Nat)) : String :=
     (match incEncode c chunks with | none => "RAISE" | some t => encCps t) ++ " | " ++
     (match statelessEncode c chunks.flatten with | none => "RAISE" | some t => encCps t)
 
+/-- `cdec given force chunk…`: the CSS incremental decoder over CPython's inner decoders (`cpyInner`):
+per-chunk outputs | final output | one-shot -/
+def cdec (given : Option Name) (force : Bool) (chunks : List (List Nat)) : String :=
+  let rec go (s : DSt) (cs : List (List Nat)) (acc : List String) : DSt × List String :=
+    match cs with
+    | [] => (s, acc.reverse)
+    | c :: cs => let r := step cpyInner s c false; go r.1 cs (encCps r.2 :: acc)
+  let r := go (.waiting given force []) chunks []
+  let fin := step cpyInner r.1 [] true
+  " ".intercalate r.2 ++ " | " ++ encCps fin.2 ++ " | " ++ encCps (oneShot cpyInner given force chunks.flatten)
+
+def cenc (given : Option Name) (chunks : List (List Nat)) : String :=
+  let rec go (s : ESt) (cs : List (List Nat)) (acc : List String) : ESt × List String :=
+    match cs with
+    | [] => (s, acc.reverse)
+    | c :: cs => let r := estep cpyInnerEnc s c false; go r.1 cs (encCps r.2 :: acc)
+  let r := go (.waiting given []) chunks []
+  let fin := estep cpyInnerEnc r.1 [] true
+  " ".intercalate r.2 ++ " | " ++ encCps fin.2 ++ " | " ++ encCps (encodeOneShot cpyInnerEnc given chunks.flatten)
+
 def handle (line : String) : String :=
   match words line with
   | ["detect", f, b] => match decCps b with
@@ -117,6 +138,16 @@ def handle (line : String) : String :=
       let given := if g == "none" then some none else (decCps g).map some
       match given, chunks.mapM decCps with
       | some given, some cs => incenc given cs
+      | _, _ => "bad-op"
+  | "cdec" :: g :: f :: chunks =>
+      let given := if g == "none" then some none else (decCps g).map some
+      match given, chunks.mapM decCps with
+      | some given, some cs => if cs.all isBytes then cdec given (f == "1") cs else "bad-op"
+      | _, _ => "bad-op"
+  | "cenc" :: g :: chunks =>
+      let given := if g == "none" then some none else (decCps g).map some
+      match given, chunks.mapM decCps with
+      | some given, some cs => cenc given cs
       | _, _ => "bad-op"
   | ["pdec", c, f, b] => match parseCName c, decCps b with
       | some c, some d => if isBytes d then pdec c (f == "1") d else "bad-op"
